@@ -38,7 +38,7 @@ def _is_legal_header_name(name: bytes) -> bool:
     This does not allow for the `:` character in the header name, so should not
     be used to validate pseudo-headers.
     """
-    return bool(RE_IS_LEGAL_HEADER_NAME.match(name))
+    return bool(RE_IS_LEGAL_HEADER_NAME.fullmatch(name))
 
 
 def _is_illegal_header_value(value: bytes) -> bool:
